@@ -52,7 +52,7 @@ pub fn def_c26() -> PropDef {
         level: "exploration",
         profile: profile_c26,
         oracle: |_cfg| Box::new(C26::default()),
-        quick_runs: 20_000,
+        quick_runs: 60_000,
         thorough_runs: 500_000,
         panic_is_violation: false,
         rule: "run = multi-replica history of list/text edits; at probe points cursors are taken (both move modes, seeded positions, also at historical heads) and must resolve at once to the start of the element they were taken in; at every later probe and at the end every stored cursor is resolved, through its string or byte encoding, on every replica that contains the cursor's op, now and at historical heads containing it, and compared with the reference interpreter: element visible => its index in units; deleted => After: number of visible units before it; Before: index of the nearest visible ancestor along the insertion chain, else 0. non-trivial = a cursor was resolved after its element was deleted; distinct by digest of the (cursor, expected position) sequence",
